@@ -402,6 +402,43 @@ func outside() {
 	fmt.Printf("def outsideWrites : List (Txt × Txt) := [%s]\n", strings.Join(items, ",\n  "))
 }
 
+// arbOrder prints the order of the RollbackTo calls inside Arbiters.RollbackTo and of the two processing steps of
+// Arbiters.ProcessBlock (facts; the lemma in Props/C21.lean states what the order has to be).
+func arbOrder() {
+	var ro, po []string
+	for _, f := range ex.ParseDir("dpos/state") {
+		for _, d := range f.AST.Decls {
+			fd, ok := d.(*ast.FuncDecl)
+			if !ok || fd.Body == nil || ex.RecvName(fd) != "Arbiters" {
+				continue
+			}
+			if fd.Name.Name == "RollbackTo" || fd.Name.Name == "ProcessBlock" {
+				ast.Inspect(fd.Body, func(n ast.Node) bool {
+					c, ok := n.(*ast.CallExpr)
+					if !ok {
+						return true
+					}
+					sel, ok := c.Fun.(*ast.SelectorExpr)
+					if !ok {
+						return true
+					}
+					if fd.Name.Name == "RollbackTo" && sel.Sel.Name == "RollbackTo" {
+						ro = append(ro, f.Src(sel.X))
+					}
+					if fd.Name.Name == "ProcessBlock" && (sel.Sel.Name == "ProcessBlock" || sel.Sel.Name == "IncreaseChainHeight") {
+						po = append(po, f.Src(c.Fun))
+					}
+					return true
+				})
+			}
+		}
+	}
+	fmt.Printf("\n-- Arbiters.ProcessBlock steps: %s\n", strings.Join(po, ", "))
+	fmt.Printf("def arbProcessOrder : List Txt := %s\n", ncs(po))
+	fmt.Printf("-- Arbiters.RollbackTo calls: %s\n", strings.Join(ro, ", "))
+	fmt.Printf("def arbRollbackOrder : List Txt := %s\n", ncs(ro))
+}
+
 func main() {
 	ex.Header(prop, "ElaVerif.Model.Sites")
 	var sites []site
@@ -491,5 +528,6 @@ func main() {
 	}
 	fmt.Printf("\ndef nsites : List NSite := [%s]\n", strings.Join(nn, ", "))
 	outside()
+	arbOrder()
 	ex.Footer(prop)
 }
